@@ -93,7 +93,7 @@ def _unsync():
         props = {"op_get": GET, "op_contains": CON, "op_iter": ITER, "op_invalidate": INV, "op_invalidate_all": INV,
                  "op_invalidate_if": INV, "op_evict_lru": {"C04", "C12", "C10"}, "op_evict_expired": {"C10", "C03", "C11"},
                  "op_get_overcap": GET | {"C04"}, "op_insert_overcap": INSN,
-                 "op_insert_sketch_off": {"C13", "C03", "C12", "C10"}}.get(op)
+                 "op_insert_sketch_off": {"C13", "C03", "C12", "C10"}, "op_invalidate_all_then_insert": {"C14", "C13", "C07", "C03"}}.get(op)
         if op == "op_insert":
             props = INSU if "_upd" in name else INSN
         props = set(props) | {"C08"}
@@ -106,7 +106,7 @@ def _unsync():
         prim = {"op_get": {"C01", "C12", "C14"}, "op_contains": {"C15"}, "op_iter": {"C16", "C15"},
                 "op_invalidate": {"C07"}, "op_invalidate_all": {"C07", "C10"}, "op_invalidate_if": {"C07", "C10"},
                 "op_evict_lru": {"C04", "C12"}, "op_evict_expired": {"C10", "C03", "C11"},
-                "op_get_overcap": {"C04", "C12"}, "op_insert_overcap": {"C04", "C03"}, "op_insert_sketch_off": {"C13"}}.get(op, set())
+                "op_get_overcap": {"C04", "C12"}, "op_insert_overcap": {"C04", "C03"}, "op_insert_sketch_off": {"C13"}, "op_invalidate_all_then_insert": {"C14", "C07"}}.get(op, set())
         if op == "op_insert":
             prim = {"C01", "C10"} if "_upd" in name else {"C03", "C04", "C13", "C12"}
         prim = set(prim)
@@ -194,6 +194,10 @@ QUICK_SYNC = {   # sync queries per property in the quick tier (10-90 s each wit
     "s_contains1_same_reading_as_watermark": {"C07"},
     "s_get1_same_reading_as_watermark": {"C07"},
     "s_get0_before_watermark": {"C07"},
+    "s_contains0_written_before_watermark_read_on_it": {"C07", "C01"},
+    "s_get0_written_before_watermark_read_on_it": {"C07", "C01"},
+    "s_iterfilter0_written_before_watermark_read_on_it": {"C16", "C01", "C07"},
+    "s_insert_update0_below_watermark_no_expiry": {"C07", "C16", "C01", "C03"},
     "s_invalidate_all_2": {"C07"},
     "s_invalidate_all_again": {"C07"},
     "s_iterfilter0_ttl_deadline": {"C16", "C05"},
